@@ -26,11 +26,18 @@ func guard(r *vh.Rng, nwf int, s Stmt) Stmt {
 func genProg(r *vh.Rng, nwf int, mem bool) []Stmt {
 	var p []Stmt
 	pendingLoad, pendingStore := false, false
+	pendingS, haveS := false, false // s13 (sload2): a load is outstanding / has been loaded on every path
 	n := 3 + r.Intn(12)
 	sync := func() {
-		p = append(p, Stmt{Op: "waitcnt", A: 0, B: []int{0, 15, 1, 15}[r.Intn(4)]})
+		b := []int{0, 15, 1, 15}[r.Intn(4)]
+		p = append(p, Stmt{Op: "waitcnt", A: 0, B: b})
 		pendingLoad, pendingStore = false, false
+		if b == 0 {
+			pendingS = false
+		}
 	}
+	isLoad := map[string]bool{"fload": true, "floadu": true, "gload": true, "scload": true, "floadg": true, "gloadg": true}
+	isStore := map[string]bool{"fstore": true, "gstore": true, "scstore": true}
 	for len(p) < n {
 		var s Stmt
 		x := r.Pick(14, 12, 8, 10, 6, 6, 4, 6)
@@ -49,31 +56,47 @@ func genProg(r *vh.Rng, nwf int, mem bool) []Stmt {
 			if !mem {
 				continue
 			}
-			op := []string{"fload", "sload", "floadu", "fstore", "fload"}[r.Intn(5)]
-			if op == "fstore" && pendingStore {
+			op := []string{"fload", "sload", "floadu", "fstore", "fload", "gload", "gstore", "scload", "scstore", "sload2", "sload2", "gloadg"}[r.Intn(12)]
+			if isStore[op] && pendingStore {
 				sync()
 			}
 			s = Stmt{Op: op}
-			if r.Intn(3) == 0 {
+			if op != "sload2" && r.Intn(3) == 0 {
 				s = guard(r, nwf, s)
 			}
 			p = append(p, s)
-			if op == "fload" || op == "floadu" {
+			if isLoad[op] {
 				pendingLoad = true
 			}
-			if op == "fstore" {
+			if isStore[op] {
 				pendingStore = true
+			}
+			if op == "sload2" {
+				pendingS, haveS = true, true
 			}
 		case 4: // wait count with arbitrary thresholds
 			s = Stmt{Op: "waitcnt", A: []int{0, 1, 2, 15}[r.Intn(4)], B: []int{0, 1, 2, 3, 15}[r.Intn(5)]}
 			if r.Intn(3) == 0 {
 				s = guard(r, nwf, s)
-			} else if s.A == 0 {
-				pendingLoad, pendingStore = false, false
+			} else {
+				if s.A == 0 {
+					pendingLoad, pendingStore = false, false
+				}
+				if s.B == 0 {
+					pendingS = false
+				}
 			}
 			p = append(p, s)
 		case 5: // use of the loaded value
 			if !mem {
+				continue
+			}
+			if haveS && r.Intn(2) == 0 {
+				if pendingS {
+					p = append(p, Stmt{Op: "waitcnt", A: 15, B: 0})
+					pendingS = false
+				}
+				p = append(p, Stmt{Op: "suse"})
 				continue
 			}
 			if pendingLoad {
@@ -112,6 +135,12 @@ func genProg(r *vh.Rng, nwf int, mem bool) []Stmt {
 		if pendingLoad || pendingStore {
 			sync()
 		}
+		if haveS {
+			if pendingS {
+				p = append(p, Stmt{Op: "waitcnt", A: 15, B: 0})
+			}
+			p = append(p, Stmt{Op: "suse"})
+		}
 		p = append(p, Stmt{Op: "use"}, Stmt{Op: "fstore"})
 	}
 	p = append(p, Stmt{Op: "endpgm"})
@@ -120,7 +149,7 @@ func genProg(r *vh.Rng, nwf int, mem bool) []Stmt {
 
 // fixed shapes that aim at particular corners
 func corner(r *vh.Rng, k int) Case {
-	switch k % 8 {
+	switch k % 10 {
 	case 0: // many small groups on one CU: more waiting wavefronts than the barrier buffer holds
 		return Case{Name: "full-barrier-buffer", NWf: 2, NWg: 20, Prog: []Stmt{
 			{Op: "sload", G: "eq", K: 1}, {Op: "sload", G: "eq", K: 1}, {Op: "waitcnt", A: 15, B: 0, G: "eq", K: 1},
@@ -175,6 +204,26 @@ func corner(r *vh.Rng, k int) Case {
 		}
 		p = append(p, Stmt{Op: "fstore"}, Stmt{Op: "endpgm"})
 		return Case{Name: "straddling-load-wait-use", NWf: 1 + r.Intn(4), NWg: 1 + r.Intn(3), Pen: 3, Prog: p}
+	case 7: // store -> acknowledgement -> scalar load -> s_waitcnt lgkmcnt(0) -> use of the scalar, with flat / global / scratch encodings
+		var p []Stmt
+		for i := 0; i < 1+r.Intn(3); i++ {
+			st := []string{"gstore", "scstore", "fstore", "gstore"}[r.Intn(4)]
+			p = append(p, Stmt{Op: st}, Stmt{Op: "waitcnt", A: 0, B: 15}, Stmt{Op: "nop"},
+				Stmt{Op: "sload2"}, Stmt{Op: "waitcnt", A: 15, B: 0}, Stmt{Op: "suse"})
+			if r.Intn(2) == 0 {
+				p = append(p, Stmt{Op: []string{"gload", "scload"}[r.Intn(2)]}, Stmt{Op: "waitcnt", A: 0, B: 15}, Stmt{Op: "use"})
+			}
+		}
+		p = append(p, Stmt{Op: "gstore"}, Stmt{Op: "endpgm"})
+		return Case{Name: "store-ack-sload-wait-use", NWf: 1 + r.Intn(4), NWg: 1 + r.Intn(3), Prog: p}
+	case 8: // >= 9 wavefronts gather 64 cache lines each at once: the table of in-flight accesses (512) fills up
+		shape := [][2]int{{12, 1}, {16, 1}, {4, 3}, {5, 2}, {3, 4}, {16, 2}, {10, 1}}[r.Intn(7)]
+		var p []Stmt
+		for i := 0; i < 1+r.Intn(2); i++ {
+			p = append(p, Stmt{Op: []string{"floadg", "gloadg"}[r.Intn(2)]}, Stmt{Op: "waitcnt", A: 0, B: 15}, Stmt{Op: "use"})
+		}
+		p = append(p, Stmt{Op: "fstore"}, Stmt{Op: "endpgm"})
+		return Case{Name: "gather-storm", NWf: shape[0], NWg: shape[1], Prog: p}
 	default: // exit with memory still in flight
 		return Case{Name: "exit-with-mem-in-flight", NWf: 1 + r.Intn(3), NWg: 1 + r.Intn(2), Prog: []Stmt{
 			{Op: "fload"}, {Op: "sload"}, {Op: "vmov"}, {Op: "fstore"}, {Op: "sload"}, {Op: "endpgm"}}}
@@ -249,10 +298,17 @@ func natList(xs []int) string {
 	return "[" + strings.Join(s, ";") + "]"
 }
 
+func nonNeg(x int) int {
+	if x < 0 {
+		return 999999 // a negative counter of the implementation can never match the model
+	}
+	return x
+}
+
 func nList(xs []int) string {
 	s := make([]string, len(xs))
 	for i, x := range xs {
-		s[i] = fmt.Sprint(x)
+		s[i] = fmt.Sprint(nonNeg(x))
 	}
 	return "[" + strings.Join(s, ";") + "]"
 }
@@ -295,7 +351,7 @@ func coqTiming(c Case) string {
 			var d []string
 			for j := range e.St {
 				if j >= len(lst) || lst[j] != e.St[j] || lsc[j] != e.Sc[j] || lvc[j] != e.Vc[j] {
-					d = append(d, fmt.Sprintf("(%d%%nat,%d,%d,%d)", j, e.St[j], e.Sc[j], e.Vc[j]))
+					d = append(d, fmt.Sprintf("(%d%%nat,%d,%d,%d)", j, e.St[j], nonNeg(e.Sc[j]), nonNeg(e.Vc[j])))
 				}
 			}
 			lst, lsc, lvc = e.St, e.Sc, e.Vc
